@@ -31,6 +31,7 @@ http://www.musicxml.org/xml.html
 from __future__ import absolute_import
 
 import datetime
+from fractions import Fraction
 from functools import reduce
 from xml.dom.minidom import Document
 
@@ -61,7 +62,14 @@ def _lcm(a=None, b=None, terms=None):
     if terms:
         return reduce(lambda a, b: _lcm(a, b), terms)
     else:
-        return (a * b) / _gcd(a, b)
+        return (a * b) // _gcd(a, b)
+
+
+def _quarter_length(parsed_value):
+    """Return the length in quarter notes of a value analysed by
+    value.determine: (base value, dots, ratio) as an exact fraction."""
+    (base, dots, actual, normal) = parsed_value
+    return Fraction(4) / Fraction(base) * Fraction(normal, actual) * (2 - Fraction(1, 2 ** dots))
 
 
 def _note2musicxml(note):
@@ -103,11 +111,12 @@ def _bar2musicxml(bar):
     # bar attributes
     attributes = doc.createElement("attributes")
 
-    # calculate divisions by using the LCM
+    # divisions per quarter note: the smallest number in which every entry of
+    # the bar (dots and tuplets included) lasts a whole number of divisions
     l = []
     for nc in bar:
-        l.append(int(value.determine(nc[1])[0]))
-    lcm = _lcm(terms=l) * 4
+        l.append(_quarter_length(value.determine(nc[1])).denominator)
+    lcm = _lcm(terms=l) if l else 1
     divisions = doc.createElement("divisions")
     divisions.appendChild(doc.createTextNode(str(lcm)))
     attributes.appendChild(divisions)
@@ -150,7 +159,7 @@ def _bar2musicxml(bar):
 
             # convert the duration of the note
             duration = doc.createElement("duration")
-            duration.appendChild(doc.createTextNode(str(int(lcm * (4.0 / beat)))))
+            duration.appendChild(doc.createTextNode(str(int(lcm * _quarter_length(time)))))
             note.appendChild(duration)
 
             # check for dots
